@@ -322,6 +322,44 @@ func vfC20Run(t *testing.T, res *vfResult, c vfC20Case, realTime bool) {
 	time.Sleep(3 * time.Second)
 	wait()
 	n.SetOnSend(nil)
+	// late duplicates across many updates: the wire shows only the two low bits of the epoch, so after four updates
+	// an old generation looks like the current one; a duplicate of an already delivered old record stays a duplicate
+	for _, side := range []*vfSide{p.C, p.S} {
+		peer := p.S
+		if side == p.S {
+			peer = p.C
+		}
+		recs, _, maxGen := vfC20Decode(n, tk.s13, tk.sec13[side.Name], tk.ep13[side.Name], side.Name, mark, vfCIDLenOf(peer.Conn))
+		if maxGen < 4 {
+			continue
+		}
+		byTicket := map[int64][]byte{}
+		for _, w := range n.LogSince(mark) {
+			if !w.Deliver && w.From == side.Name {
+				byTicket[w.Ticket] = w.Data
+			}
+		}
+		sent := 0
+		for i := len(recs) - 1; i >= 0 && sent < 4; i-- {
+			rc := recs[i]
+			if rc.Gen > maxGen-4 || rc.Type != 23 {
+				continue
+			}
+			fmu.Lock()
+			f := fates[rc.Ticket]
+			fmu.Unlock()
+			if f != nil && f.Dropped {
+				continue
+			}
+			if d, ok := byTicket[rc.Ticket]; ok {
+				n.Deliver(string(peer.EP.addr), d, side.EP.addr)
+				sent++
+			}
+		}
+		res.Count("late_duplicates_across_four_updates", int64(sent))
+	}
+	time.Sleep(200 * time.Millisecond)
+	wait()
 	// K5: a record under the next, not yet authorised generation
 	forged := 0
 	for _, side := range []*vfSide{p.C, p.S} {
